@@ -12,6 +12,6 @@ echo "== demo WITH change"
 if [ -f $WT/_seed/demo/src/main.rs ]; then DEMO="cargo run --offline"; else DEMO="cargo test --offline"; fi
 (cd $WT/_seed/demo && timeout 1800 $DEMO >/tmp/mut/$NAME.with.log 2>&1; echo "exit=$?"; tail -3 /tmp/mut/$NAME.with.log)
 echo "== demo WITHOUT change"
-(cd $WT && git stash push -q -- ascent ascent_macro ascent_base byods && cd _seed/demo && (timeout 1800 $DEMO >/tmp/mut/$NAME.without.log 2>&1; echo "exit=$?"; tail -3 /tmp/mut/$NAME.without.log); cd $WT && git stash pop -q)
+(cd $WT && git apply -R _seed/patch.diff && cd _seed/demo && (timeout 1800 $DEMO >/tmp/mut/$NAME.without.log 2>&1; echo "exit=$?"; tail -3 /tmp/mut/$NAME.without.log); cd $WT && git apply _seed/patch.diff)
 mkdir -p $OUT && cp $WT/_seed/patch.diff $OUT/ && rm -rf $OUT/demo && cp -r $WT/_seed/demo $OUT/demo && rm -rf $OUT/demo/target && cp $WT/_seed/README.md $OUT/AGENT_README.md
 echo "filed under $OUT"
